@@ -152,6 +152,14 @@ func (m *Machine) nextTimer() *vtimer {
 
 // nowValue returns a fresh symbolic instant, non-decreasing along the path.
 func (m *Machine) nowValue() value {
+	if m.cfg.Params["concretenow"] > 0 {
+		// deterministic time: a fixed epoch plus the virtual clock (vrtAdvance);
+		// for harnesses in which instants are driven explicitly
+		c := m.clock()
+		if !isSym(c) {
+			return int64(1_700_000_000_000_000_000) + asInt64(c)
+		}
+	}
 	vin := m.newInput("envnow", types.Int64)
 	if m.conc != nil {
 		return vin // concrete replay: the instant of the counterexample
